@@ -9,6 +9,7 @@
 //! 1 = new violation (a line `VIOLATION property=<id> replay=<path>` is printed),
 //! 2 = harness error.
 
+mod c03merge;
 mod c05sub;
 mod c08;
 mod c18;
